@@ -1,5 +1,16 @@
 """C13 — estimate, personalize and simulate leave the model and caller inputs untouched.
 
+Footprints (second half of this file, recorder in footprint_c13.py): during every estimate / personalize / simulate call of
+every history, wrappers on `State` and on the model object record each event that can change a state or the model
+(assignments, uncached reads, reverts, clones, mode switches, re-binding of `model.state`, attribute writes, in-place
+tensor writes seen through `_version` counters). The recorded history of each call is decided by `Model/Footprint.lean`
+through `drivers/C13.lean` (`touchesOriginal`, `writesOriginal`, `analyse`, `verdict`): estimate / scipy_minimize / simulate
+must not write to the original state at all; mean / mode posterior (which do run on `model.state`) must end with the model
+bound to a state holding the protected variables of the original and no data / individual value. What the theorems
+conclude from a passing verdict is compared with the real objects (same tensor objects / cache only grown / digests); a
+footprint that does not pass triggers a search for an observable consequence (extended snapshots, later calls against a
+copy taken before the call).
+
 Random call histories over {fit, estimate, personalize x3 algorithms, simulate, save, load} on one object per model
 kind. Around every call: deep snapshots of `model.state._values`, parameters, hyperparameters, the DataFrame / Data /
 timepoints / individual parameters passed in and `AlgorithmSettings.parameters`; the value returned is compared
@@ -16,6 +27,7 @@ import tempfile
 
 from . import core
 from . import api_common as A
+from . import footprint_c13 as F
 from .core import fmt_list
 
 PROP = "C13"
@@ -23,13 +35,18 @@ LEAN = dict(
     props="LeaspyVerif.Props.C13",
     driver="drivers/C13.lean",
     harness="c13_purity.py",
-    extra_modules=["LeaspyVerif.Model.Api"],
+    extra_modules=["LeaspyVerif.Model.Api", "LeaspyVerif.Model.Footprint"],
     theorems=["estimate_pure", "personalize_preserves_core", "simulate_preserves_core", "no_residual_added",
               "no_residual_added_none", "core_preserved_history", "result_independent_of_residual",
               "result_same_on_fresh_copy", "result_independent_of_residual_shipped_counterexample",
-              "result_independent_of_residual_shipped_partial"],
+              "result_independent_of_residual_shipped_partial",
+              "footprint_frame", "footprint_pure", "footprint_reads_only", "footprint_reads_refine", "clone_isolated",
+              "footprint_core_preserved", "footprint_no_residual", "footprint_refines_api",
+              "footprint_history_refines_api", "footprint_history_preserves", "footprint_pure_counterexample",
+              "untouching_footprint_keeps_leftovers_counterexample"],
     trusted_extra=[
-        "the read-set / write-set transcription of each public call (Model/Api.lean part (c)) is validated only by the deep snapshots taken around every real call",
+        "the footprint recorder (harness/footprint_c13.py) sees every event that can change a State or the model object: wrappers on State.__setitem__/__getitem__/revert/clone/precompute_all/clear/auto_fork_type/to_device/(un)track_variable and on the model's __setattr__, version counters of every tensor held by the original state; checked on every call by comparing what the theorems conclude from the recorded history with the real objects (same tensor objects, cache only grown, digests of the protected variables), and by the deep snapshots",
+        "what a call READS (the dependence of its result on what it is given) is still the transcription of Model/Api.lean part (c), validated by comparing every result with the same call on a freshly loaded copy; the footprint discharges the WRITE side only",
         "numerical kernels (SAEM, Gibbs samplers, scipy minimize, trajectories, simulation) are uninterpreted functions of what they are given",
         "purity of caller inputs (DataFrame, Data, timepoints, individual parameters, AlgorithmSettings.parameters) is observed by fingerprints on the real objects, not modelled",
     ],
@@ -47,6 +64,8 @@ KIND_CONFIGS = [
     ("joint", "joint", "joint", dict(source_dimension=1)),
 ]
 OPS = ["fit", "est", "mean", "mode", "scipy", "sim", "save", "load"]
+READ_ONLY = ("est", "mean", "mode", "scipy", "sim")
+MCMC = ("mean", "mode")
 
 
 def gen_sequence(rng, key, length):
@@ -74,6 +93,7 @@ class Harness:
         import random
         self.chk, self.E, self.key, self.tmp = chk, E, key, tmp
         self.rng = random.Random(case_seed)
+        self.rng2 = random.Random(case_seed * 7919 + 13)      # decisions added later (keeps the older stream as it was)
         cfg = {k[0]: k for k in KIND_CONFIGS}[key]
         _, self.kind, self.which, self.hyp = cfg
         n_ind = 6 if self.which == "joint" else None
@@ -155,7 +175,7 @@ class Harness:
                 out = model.estimate(args["tps"], args["ips"])
                 return A.obj_digest({k: (v.shape, v.dtype.str, v.tobytes()) for k, v in out.items()})
             if op in ("mean", "mode", "scipy"):
-                inp = args["df"] if args["as_df"] else args["data"]
+                inp = args["dataset"] if args.get("dataset") is not None else (args["df"] if args["as_df"] else args["data"])
                 ips = model.personalize(inp, algorithm_settings=args["settings"])
                 return A.ip_digest(ips)
             if op == "sim":
@@ -184,7 +204,13 @@ class Harness:
             else:
                 df, data = self.sub_cohort(rng.choice([1, 2, 3]))
             algo = {"mean": "mean_posterior", "mode": "mode_posterior", "scipy": "scipy_minimize"}[op]
-            return dict(df=df, data=data, as_df=self.as_df(), settings=self.settings(algo, seed), seed=seed)
+            out = dict(df=df, data=data, as_df=self.as_df(), settings=self.settings(algo, seed), seed=seed)
+            if self.rng2.random() < 0.25:
+                # a caller-owned Dataset (tensors): the algorithms put these very tensors into the state they work on
+                from leaspy.io.data import Dataset
+                with core.quiet():
+                    out["dataset"] = Dataset(data)
+            return out
         if op == "est":
             ids = [f"e{i}" for i in range(rng.choice([1, 2]))]
             ips = A.random_ips(rng, self.model, ids)
@@ -213,6 +239,8 @@ class Harness:
         if "df" in args:
             d["dataframe"] = A.df_digest(args["df"])
             d["data"] = A.data_digest(args["data"])
+        if args.get("dataset") is not None:
+            d["dataset"] = A.obj_digest(F.deep_fp(args["dataset"], depth=3))
         if "settings" in args:
             s = args["settings"]
             d["settings.parameters"] = A.obj_digest(s.parameters)
@@ -223,9 +251,69 @@ class Harness:
         return d
 
 
-def run_history(chk, E, key, ops, case_seed, tmp, edge=None):
+def ext_snapshot(model):
+    """everything the model object holds: values, cache pattern, pending fork, fork mode, tracked variables, other attributes"""
+    st = model._state
+    return dict(values=A.state_snapshot(model),
+                fork=None if st._last_fork is None else {k: A.value_digest(v) for k, v in st._last_fork.items()},
+                mode=str(st.auto_fork_type), tracked=sorted(st._tracked_variables), attrs=F.model_attrs_fp(model))
+
+
+def ext_diff(op, e0, e1, model):
+    """observable differences between two extended snapshots, for a call that must leave the object as it is
+    (lazy fills of the cache are not differences; for mean / mode the cleaned clone legitimately has no fork and no leftovers)"""
+    out = []
+    d = A.snapshot_diff(e0["values"], e1["values"], model)
+    if d["core"]:
+        out.append(f"parameters / population variables changed: {d['core']}")
+    if d["derived_changed"]:
+        out.append(f"cached derived values changed: {d['derived_changed'][:4]}")
+    added = [k for k in d["ind"] + d["data"] if e1["values"][k] is not None]
+    if added:
+        out.append(f"data / individual values stored: {added}")
+    if op not in MCMC:
+        if d["derived_dropped"]:
+            out.append(f"cached derived values dropped: {d['derived_dropped'][:4]}")
+        if e0["fork"] != e1["fork"]:
+            out.append("pending fork of model.state changed")
+    for k in ("mode", "tracked"):
+        if e0[k] != e1[k]:
+            out.append(f"{k} of model.state changed: {e0[k]} -> {e1[k]}")
+    ch = [k for k in set(e0["attrs"]) | set(e1["attrs"]) if e0["attrs"].get(k) != e1["attrs"].get(k)]
+    if ch:
+        out.append(f"model attributes changed: {sorted(ch)}")
+    return out
+
+
+def later_results(H, model):
+    """two fixed later calls (an estimate, a scipy personalisation of the first subject), as fingerprints"""
+    import random
+    E = H.E
+    ips = A.random_ips(random.Random(7), model, ["p0"])
+    out = []
+    try:
+        with core.quiet():
+            est = model.estimate({"p0": [70.0, 75.5]}, ips)
+        out.append(A.obj_digest({k: v.tobytes() for k, v in est.items()}))
+    except Exception as e:  # noqa
+        out.append(f"estimate raised {type(e).__name__}")
+    try:
+        first = H.ids[0]
+        df = H.df[H.df.index.get_level_values("ID") == first]
+        with core.quiet():
+            data = E.Data.from_dataframe(df, data_type="joint") if H.which == "joint" else E.Data.from_dataframe(df)
+            ip = model.personalize(data, "scipy_minimize", seed=0, progress_bar=False)
+        out.append(A.ip_digest(ip))
+    except Exception as e:  # noqa
+        out.append(f"scipy_minimize raised {type(e).__name__}")
+    return out
+
+
+def run_history(chk, E, key, ops, case_seed, tmp, edge=None, fps=None, probe_at=None, probe_out=None):
     """returns (per-step implementation pattern, case json); `edge` = [parameter, value]: every load reads a file in which that
-    parameter was overwritten by hand"""
+    parameter was overwritten by hand.  `fps`: list receiving one footprint record per estimate / personalize / simulate call.
+    `probe_at` = step: instead of recording, that call is run between two extended snapshots and followed by later calls on the
+    object and on a copy taken before it (search for an observable consequence of a touching footprint); findings go to `probe_out`."""
     case = {"kind": key, "ops": ops, "case_seed": case_seed}
     if edge:
         case["edge"] = list(edge)
@@ -289,13 +377,37 @@ def run_history(chk, E, key, ops, case_seed, tmp, edge=None):
         params0 = A.obj_digest({k: A.value_digest(v) for k, v in H.model.parameters.items()}) if snap0 is not None else None
         hyper0 = A.obj_digest({k: A.value_digest(E.torch.as_tensor(v)) for k, v in H.model.hyperparameters.items()}) if snap0 is not None else None
         in0 = H.inputs_digest(op, args)
+        rec = iw = None
+        probing = probe_at == step and op in READ_ONLY and snap0 is not None
+        if probing:
+            ref_model = copy.deepcopy(H.model)       # the object as it was before the call
+            ext0 = ext_snapshot(H.model)
+        elif op in READ_ONLY and snap0 is not None and fps is not None:
+            rec, iw = F.Recorder(H.model), F.InputWatch(args)
+            attrs0 = F.model_attrs_fp(H.model)
         try:
-            out = H.call(H.model, op, args)
+            if rec is not None:
+                with rec, iw:
+                    out = H.call(H.model, op, args)
+            else:
+                out = H.call(H.model, op, args)
             err = None
         except Exception as e:
             out, err = None, e
         in1 = H.inputs_digest(op, args)
         snap1 = A.state_snapshot(H.model)
+        if probing:
+            found = [] if err is None else [f"the call raised {type(err).__name__}"]
+            found += ext_diff(op, ext0, ext_snapshot(H.model), H.model)
+            found += [f"the caller's {k} was modified" for k in in0 if in0[k] != in1[k]]
+            if not found:
+                a, b = later_results(H, H.model), later_results(H, ref_model)
+                if a != b:
+                    found.append("a later estimate / scipy_minimize on the object differs from the same call on a copy taken before "
+                                 f"the call ({[x == y for x, y in zip(a, b)]})")
+            if probe_out is not None:
+                probe_out.extend(found)
+            return None, case
         # ---- predicates -------------------------------------------------------------------
         for k in in0:
             if in0[k] != in1[k]:
@@ -314,6 +426,13 @@ def run_history(chk, E, key, ops, case_seed, tmp, edge=None):
                 d = A.snapshot_diff(snap0, snap1, H.model)
                 if d["core"]:
                     chk.impl_failure(cj, f"{op} failed and left parameters / population variables changed: {d['core']}")
+            return None, case
+        if op == "fit" and any(not bool(E.torch.isfinite(E.torch.as_tensor(v)).all()) for v in H.model.parameters.values()):
+            # a short fit started from hand-written values at the edge of their domain (e.g. xi_std = 250) can end with a
+            # non-finite noise level without the algorithm saying so: such an object can not be reloaded (`load` compares
+            # the derived values of the file, NaN != NaN), so the copy the later calls are compared with does not exist.
+            # Like a fit that reports non-convergence: the history ends here (its inputs were compared above).
+            chk.tag("fit_gave_non_finite_parameters", H.key)
             return None, case
         if op == "save":
             saved_double = any(E.torch.as_tensor(v).dtype == E.torch.float64 for v in H.model.parameters.values())
@@ -355,7 +474,81 @@ def run_history(chk, E, key, ops, case_seed, tmp, edge=None):
             same_tok.append("-")
         res_bits.append(A.has_residual(H.model))
         core_bits.append(int(core_changed))
+        if rec is not None:
+            cls = A.variable_classes(H.model)
+            fps.append(dict(case=cj, op=op, line=rec.request(op, cls), n=len(rec.events),
+                            replay=rec.replay_request(op, cls) if len(rec.events) <= 400 else None,
+                            ident=rec.original_unchanged_by_identity(), grew=rec.cache_only_grew(),
+                            rebound=H.model._state is not rec.keep[0], core_changed=core_changed,
+                            residual=A.has_residual(H.model), attrs_same=attrs0 == F.model_attrs_fp(H.model),
+                            inputs=list(iw.events), inputs_changed=[k for k in in0 if in0[k] != in1[k]]))
     return (res_bits, same_tok, core_bits), case
+
+
+def search_consequence(chk, E, f, tmp):
+    """re-run the history of footprint record `f` up to its call and look for an observable consequence"""
+    c = f["case"]
+    found = []
+    try:
+        run_history(chk, E, c["kind"], c["ops"], c["case_seed"], tmp, edge=c.get("edge"), probe_at=c["step"], probe_out=found)
+    except Exception as e:  # noqa
+        found.append(f"the search itself failed: {type(e).__name__}: {str(e)[:80]}")
+    return found
+
+
+def compare_footprints(chk, E, fps, tmp):
+    """every recorded footprint through the Lean decision procedures; conclusions of the theorems against the real objects"""
+    if not fps:
+        return
+    replays, seen = [], set()
+    for f in fps:                       # one shadow replay per kind of call
+        if f["op"] not in seen and f["replay"]:
+            seen.add(f["op"])
+            replays.append(f)
+    out = chk.model([f["line"] for f in fps] + [f["replay"] for f in replays])
+    for f, resp in zip(fps, out[:len(fps)]):
+        op, cj = f["op"], f["case"]
+        chk.tag("footprint_events", "<=10" if f["n"] <= 10 else "<=100" if f["n"] <= 100 else "<=1000" if f["n"] <= 1000 else ">1000")
+        try:
+            parts = dict(p.split("=", 1) for p in resp.split(" "))
+            touches, writes, verdict = parts["touches"], parts["writes"], parts["verdict"]
+        except Exception:  # noqa
+            chk.disagree(cj, "?", resp, "unparsable footprint response")
+            continue
+        chk.tag("footprint", f"{op}: touches={touches} writes={writes} verdict={verdict}")
+        # -- what the theorems conclude from the recorded history, observed on the real objects ------------------------
+        untouched = f["ident"] and not f["rebound"] and f["attrs_same"]
+        if touches == "0" and not untouched:
+            chk.disagree(cj, f"identical={f['ident']} rebound={f['rebound']} attributes_same={f['attrs_same']}", resp,
+                         "footprint_pure: no recorded event touches model.state, yet the real object is not the same "
+                         "(the recorder missed an event)")
+        if writes == "0" and not (f["grew"] and not f["rebound"] and f["attrs_same"]):
+            chk.disagree(cj, f"cache_only_grew={f['grew']} rebound={f['rebound']} attributes_same={f['attrs_same']}", resp,
+                         "footprint_reads_only: only reads of model.state were recorded, yet more than its cache changed")
+        if op in MCMC and verdict == "1" and (f["core_changed"] or f["residual"] or not f["attrs_same"]):
+            chk.disagree(cj, f"core_changed={f['core_changed']} residual={f['residual']} attributes_same={f['attrs_same']}", resp,
+                         "footprint_core_preserved / footprint_no_residual: the analysis accepts the history, the real state differs")
+        # -- the verdict -----------------------------------------------------------------------------------------------
+        if verdict != "1":
+            what = (f"{op}: the recorded footprint writes to model.state / the model object (first touching event {parts.get('first')}, "
+                    f"bound={parts.get('bound')} same={parts.get('same')} resid={parts.get('resid')} attrs={parts.get('attrs')} "
+                    f"shared={parts.get('shared')})")
+            found = search_consequence(chk, E, f, tmp)
+            if found:
+                chk.impl_failure(cj, f"{what}; observable consequence: {'; '.join(found)[:300]}")
+            else:
+                chk.disagree(cj, f"footprint of {f['n']} events", resp, what + " — no observable consequence found")
+        # -- caller-owned inputs ---------------------------------------------------------------------------------------
+        if f["inputs"]:
+            what = f"{op}: the call wrote to a caller-owned input while it ran: {f['inputs'][:4]}"
+            if f["inputs_changed"]:
+                chk.impl_failure(cj, what + f" and left {f['inputs_changed']} modified")
+            else:
+                chk.disagree(cj, f["inputs"][:6], "inputs are only read", what + " (restored before returning: no observable consequence)")
+    for f, resp in zip(replays, out[len(fps):]):
+        chk.tag("shadow_replay", f"{f['op']}: {resp}")
+        if resp != "conc=1":
+            chk.disagree(f["case"], "recorded footprint", resp, "shadow replay of the footprint through State.step does not confirm the verdict")
 
 
 def compare(chk, cases, patterns):
@@ -403,7 +596,8 @@ def run(chk: core.Check):
     rng = chk.rng
     chk.rule = ("one case = one random call history (first call fit; up to 3 fits; estimate / mean / mode / scipy / simulate / save / load "
                 "with random sub-cohorts given as DataFrame or Data, reused AlgorithmSettings objects) on one object of one model kind; "
-                "distinct by (kind, op sequence); non-trivial when a read-only call happens while the object carries the leftovers of a fit.")
+                "distinct by (kind, op sequence); non-trivial when a read-only call happens while the object carries the leftovers of a fit. "
+                "Every estimate / personalize / simulate call is run under the footprint recorder; its recorded history is one more model line.")
     tmp = tempfile.mkdtemp(prefix="c13_")
     try:
         corpus = [c["case"] for c in core.load_corpus(PROP) if "case" in c]
@@ -423,9 +617,9 @@ def run(chk: core.Check):
                              else [rng.choice([("xi_std", 5e-4), ("tau_std", 2e-4), ("xi_std", 9e-4)])]):
                 ops = ["fit", "save", "load", "scipy", "est", "mean", "mode", "scipy"] + (["sim"] if key == "logistic-src" else [])
                 cases_in.append((key, ops, rng.randrange(10 ** 6), (par, val)))
-        cases, patterns = [], []
+        cases, patterns, fps = [], [], []
         for key, ops, cs, edge in cases_in:
-            pat, case = run_history(chk, E, key, ops, cs, tmp, edge=edge)
+            pat, case = run_history(chk, E, key, ops, cs, tmp, edge=edge, fps=fps)
             cases.append(case)
             patterns.append(pat)
             nontriv = any(o in ("est", "mean", "mode", "scipy", "sim") and i > 0 for i, o in enumerate(ops))
@@ -434,6 +628,7 @@ def run(chk: core.Check):
             chk.case((key, tuple(ops)), nontrivial=nontriv, sample=case if len(chk.samples) < 4 else None,
                      tags={"kind": key, "length": len(ops), "completed": pat is not None})
         compare(chk, cases, patterns)
+        compare_footprints(chk, E, fps, tmp)
         probe_findings(chk, E, tmp)
     finally:
         shutil.rmtree(tmp, ignore_errors=True)
@@ -447,8 +642,10 @@ def replay(chk: core.Check, payload):
         return
     tmp = tempfile.mkdtemp(prefix="c13_")
     try:
-        pat, c = run_history(chk, E, case["kind"], case["ops"], case["case_seed"], tmp, edge=case.get("edge"))
+        fps = []
+        pat, c = run_history(chk, E, case["kind"], case["ops"], case["case_seed"], tmp, edge=case.get("edge"), fps=fps)
         chk.case((case["kind"], tuple(case["ops"])), sample=c)
         compare(chk, [c], [pat])
+        compare_footprints(chk, E, fps, tmp)
     finally:
         shutil.rmtree(tmp, ignore_errors=True)
